@@ -379,6 +379,31 @@ def run(ctx: Ctx):
         if not (same_bits(got[0], want[0]) and same_bits(got[1], want[1])):
             ctx.violation("CphotAng.__call__", "batch-differs-from-one-at-a-time", "repeated showers at different ground sites under a location-dependent cloud model: " + describe_mismatch(got, want),
                           {"batch": nr, "scheduler": spec_name, "cloud_tops_by_site_mod_5": [repr(x) for x in tops]})
+    # ---- 3d. production-size batches (thousands of events, tens of partitions) through the REAL batch entry point with the
+    # per-event evaluation replaced by a cheap function of the event: result i must be the result of event i
+    import probekernel
+    pk = probekernel.ProbeKernel(np.float64(525.0))
+    for nbig in ([int(rng.integers(1001, 1400)), int(rng.integers(2001, 3500))] if not ctx.thorough else [1000, 1001, 1100, 2001, 5003, 11001]):
+        evb_ = make_events(rng, nbig)
+        evbig = (evb_[0], evb_[1], evb_[2], np.arange(nbig, dtype=np.float64), np.zeros(nbig))
+        want = (evbig[0] * 1000.0 + evbig[1] + evbig[2] * 1e-3, evbig[3])
+        for spec_name, kw in (("synchronous", {}), ("threads", {"num_workers": 8}), ("processes", {"num_workers": 4})):
+            if spec_name == "processes" and not ctx.thorough and nbig > 2000:
+                continue
+            ctx.case(("big-batch", nbig, spec_name))
+            ctx.count("big_batch_runs")
+            try:
+                with quiet(), dask.config.set(scheduler=spec_name, **kw):
+                    got = pk(*evbig, None)
+            except Exception as ex:  # noqa
+                ctx.violation("CphotAng.__call__", "unexpected-exception", f"a {nbig}-event batch raised {type(ex).__name__}: {str(ex)[:120]}", {"batch": nbig, "scheduler": spec_name})
+                continue
+            g0, g1 = np.asarray(got[0], dtype=np.float64), np.asarray(got[1], dtype=np.float64)
+            if g0.shape != (nbig,) or not (np.array_equal(g0, want[0]) and np.array_equal(g1, want[1])):
+                bad = int(np.nonzero(g1 != want[1])[0][0]) if g1.shape == (nbig,) and (g1 != want[1]).any() else -1
+                ctx.violation("CphotAng.__call__", "batch-differs-from-one-at-a-time",
+                              f"a {nbig}-event batch: position {bad} holds the result of event {int(g1[bad]) if bad >= 0 else '?'} ({len(g0)} results)",
+                              {"batch": nbig, "scheduler": spec_name, "first_bad_position": bad, "cheap_per_event_function": "probekernel.ProbeKernel.run"})
     # ---- 4. inputs and kernel object untouched over the whole exploration
     if any(not np.array_equal(a, b) for a, b in zip(ev, ev0)):
         ctx.violation("CphotAng.__call__", "mutates-input", "an input array was modified by the batch call", {})
